@@ -259,6 +259,29 @@ def run(ctx):
         ctx.check(back is a, "R3", f"{label}: __reduce__ followed by its restorer returns the same object",
                   f"restores {back!r} with identity {ident(back) if isinstance(back, SymObj) else back} instead of {ident(a)}",
                   fsite(ctx, "core._make_isotope_ion"))
+        # copy.copy / copy.deepcopy look the hooks up on the *instance* (getattr(x, '__deepcopy__', None)): a class that
+        # forwards missing attributes to another object (Ion and Isotope forward to their element) hands out that object's hook
+        from ptstat.symval import _MISSING as _MISS, BoundMethod as _BM
+        for hook in ("__copy__", "__deepcopy__"):
+            found = None
+            cv = a.cls.lookup(hook) if a.cls is not None else _MISS
+            if cv is not _MISS:
+                found = _BM(cv, a)
+            else:
+                ga = a.cls.lookup("__getattr__") if a.cls is not None else _MISS
+                if ga is not _MISS:
+                    try:
+                        found = I.call(_BM(ga, a), [hook], {})
+                    except SymRaise as exc_:
+                        if exc_.exc != "AttributeError":
+                            raise
+            if found is None:
+                ctx.ok("R3", f"{label}: no {hook} hook is found on the atom (copying goes through __reduce__)", site=s_pt)
+                continue
+            got_ = I.call(found, [] if hook == "__copy__" else [{}], {})
+            ctx.check(got_ is a, "R3", f"{label}: copy.{'copy' if hook == '__copy__' else 'deepcopy'} (the {hook} hook found on the instance) returns the atom itself",
+                      f"returns {got_!r} with identity {ident(got_) if isinstance(got_, SymObj) else got_} instead of {ident(a)}", s_pt,
+                      witness=f"copy.deepcopy of the {label}")
         same = I.call(ct, [a, T], {})
         ctx.check(same is a, "R4", f"{label}: change_table to its own table is the identity", f"{ident(same)} vs {ident(a)}", fsite(ctx, "core.change_table"))
         moved = I.call(ct, [a, T2], {})
@@ -295,7 +318,7 @@ def run(ctx):
         and ns.get("T") is Tt and set(names) == set(ns)
     ctx.check(okd, "R2", "define_elements exports every symbol and name (and D, T) bound to the table's own objects", "mismatch",
               fsite(ctx, "core.define_elements"), sample={"names": len(ns)})
-    ctx.floor("R2", 50); ctx.floor("R3", 20); ctx.floor("R4", 16); ctx.floor("R5", 2)
+    ctx.floor("R2", 50); ctx.floor("R3", 36); ctx.floor("R4", 16); ctx.floor("R5", 2)
 
     # ---- R6 element_base ------------------------------------------------------------------------------
     zs = sorted(base)
